@@ -212,14 +212,23 @@ def strip(tr):
 
 
 def validate(ctx, traces):
+    """{id: None | (index, why)}; executions whose times are finer than the trace unit (2^-16) cannot be written
+    down exactly: they are skipped and counted, and too many of them is a machinery error"""
+    skip = {t['id'] for t in traces if t['ev'] and t['ev'][0]['k'] == 'nondyadic'}
+    v = ctx.validate('TraceTime', 'TraceTime.cfg', [strip(t) for t in traces if t['id'] not in skip], timeout=1500)
     for t in traces:
-        if t['ev'] and t['ev'][0]['k'] == 'nondyadic':
-            raise MachineryError('driver met a non-dyadic time: %s' % t['ev'][0]['tag'])
-    v = ctx.validate('TraceTime', 'TraceTime.cfg', [strip(t) for t in traces], timeout=1500)
-    for t in traces:
+        if t['id'] in skip:
+            v[t['id']] = None
+            continue
         r = v[t['id']]
-        if r is not None and r[1] in ('nondyadic', 'bad-instruction'):
+        if r is not None and r[1] == 'bad-instruction':
             raise MachineryError('trace %s: %s' % (t['id'], r))
+        if r is not None and r[1] == 'nondyadic':
+            skip.add(t['id'])
+            v[t['id']] = None
+    ctx.cov['executions_skipped_finer_than_trace_unit'] = ctx.cov.get('executions_skipped_finer_than_trace_unit', 0) + len(skip)
+    if len(skip) > max(3, len(traces) // 20):
+        raise MachineryError('too many executions with times finer than the trace unit: %d of %d' % (len(skip), len(traces)))
     return v
 
 
